@@ -193,5 +193,15 @@ def looping (procs : List (String × (Nat → Opnd → Opnd → Stack → PushM)
         | .error .outOfFuel => some (name, a, b)
         | _ => none
 
+def isOutOfFuel : PushM → Bool
+  | .error .outOfFuel => true
+  | _ => false
+
+/-- the operand is not a literal of a type the literal actions never push -/
+def Opnd.known (a : Opnd) : Bool :=
+  match a.param with
+  | .literal .other => false
+  | _ => true
+
 end Ties
 end JPV
